@@ -1321,3 +1321,57 @@ def run(ctx) -> None:  # noqa: F811
     _inner_run_c06_c(ctx)
     if pending is not None:
         raise pending
+
+
+# ---------------------------------------------------------------------------------------------- R-USERAPERTURE
+def _user_aperture(ctx) -> None:
+    from ..rules import userparam
+
+    repo = ctx.repo
+    ctf_cls = repo.cls("abtem.transfer", "CTF")
+    base = repo.cls(SM, "BaseSMatrix")
+    cc = repo.method(SM, "SMatrixArray", "_calculate_ctf_coefficients")
+    ctx.require(len(cc.positional_params) >= 2, f"{cc.qualname}: signature changed")
+    eng = userparam.Engine(repo, SM, ctf_cls, consumer_base=base, seeds=((cc, cc.positional_params[1]),))
+    # the object whose coefficients are evaluated must be traced back to the entry points of the reduction
+    entry = [f for f in eng.funcs if f.cls is not None and base in f.cls.mro() and eng.names[id(f)] and
+             not f.name.startswith("_")]
+    ctx.require(len(entry) >= 3, f"only {len(entry)} public S-matrix methods were found to take a CTF object")
+    ctx.require(len(eng.components) >= 1,
+                "no component of the CTF is matched to the S-matrix in the reduction path")
+    n = userparam.check(ctx, "R-USERAPERTURE", eng, "the user-supplied CTF", "the S-matrix")
+    ctx.require(n >= 2, f"R-USERAPERTURE found only {n} write(s) into a CTF object in {SM}")
+    m = userparam.check_rebinds(ctx, "R-USERAPERTURE", eng, "the user-supplied CTF")
+    ctx.require(m >= 2, f"R-USERAPERTURE found only {m} place(s) where a missing CTF is constructed in {SM}")
+    tracked = set()
+    for init in repo.init_chain(ctf_cls):
+        for p in init.params[1:]:
+            if not eng.is_component_attr(p):
+                tracked |= {p, "_" + p}
+    userparam.unjudged_stores(eng, eng.sites(), tracked)
+
+
+_inner_run_c06_d = run
+
+
+def run(ctx) -> None:  # noqa: F811
+    ctx.rule("R-USERAPERTURE", "the reduction uses the CTF the caller handed in.  Every write the S-matrix module makes "
+             "into a CTF object (a parameter annotated CTF, a parameter that receives one at a call site of the module, a "
+             "copy, a block generated from it; attribute stores, setattr, stores below an attribute, calls of methods "
+             "that write their receiver) is enumerated from the code.  Attributes whose setter forwards into a "
+             "component the reduction match(...)es to the S-matrix (grid, accelerator) are not per-probe choices and are "
+             "left out.  Any other parameter (semiangle_cutoff, aberration coefficients, envelopes ...) may be "
+             "overwritten only on paths where a test established that the caller left it unset — equality with the "
+             "None / infinite default of the CTF constructor (read from the signature through the MRO), np.isinf, "
+             "`is None` — and only with the S-matrix' own attribute of the same name.  Clamping a LARGER cutoff down "
+             "to the expansion cutoff (`>` / `>=` the S-matrix value, min(...)) is accepted as well: the expansion "
+             "has no beams beyond its cutoff, so this is physically forced and changes nothing.  A write under a "
+             "weaker condition (inequality with the S-matrix value, `<` tests or max(...) that catch smaller finite "
+             "values, no condition, another value) is a violation: an aperture chosen below the expansion cutoff is a "
+             "legitimate probe, replacing it gives the probes of another aperture.  A write guarded by an explicit "
+             "request parameter (compared with a constant other than its default) is decided by showing that no call "
+             "in the package makes that request.  The parameter holding the caller's CTF is rebound to a freshly "
+             "constructed CTF only where it is None (or a mapping spread into the constructor)")
+    from ..rules import deferred
+
+    deferred.run(ctx, lambda: _user_aperture(ctx), _inner_run_c06_d)
